@@ -48,7 +48,7 @@ func buildNilModel(w *World) *nilModel {
 	nm := &nilModel{w: w, pm: pm, info: pm.info,
 		fnMayNil: map[*types.Func]bool{}, fnElemNil: map[*types.Func]bool{}, fieldNil: map[*types.Var]bool{}, fieldElem: map[*types.Var]bool{},
 		paramNil: map[*types.Var]bool{}, validators: map[*types.Func]bool{}, fieldWhy: map[*types.Var]string{}}
-	nm.funcs = pm.methods
+	nm.funcs = w.Funcs("parser") // methods of the parser and the plain functions beside them
 	info := nm.info
 	// validators: bool functions whose first statement is `if p == nil { ...; return [false] }`
 	for _, f := range w.Funcs("parser") {
@@ -432,6 +432,14 @@ func (nm *nilModel) localMayNil(f *FuncInfo, o types.Object, pos token.Pos) bool
 							may = true
 						}
 						continue
+					}
+					// a, b := helper(...): result i of the helper, read from its value graph
+					if call, isCall := unparen(x.Rhs[0]).(*ast.CallExpr); isCall {
+						if cal := calleeOf(info, call); cal != nil {
+							if g := nm.w.SSA().FuncValue(cal); g != nil && nm.w.resultNonNil(g, i) {
+								continue
+							}
+						}
 					}
 					may = true
 				}
@@ -1109,7 +1117,7 @@ func (nm *nilModel) returnedNodeInvariant(f *FuncInfo, e ast.Expr) string {
 
 // fromPratt: the expression denotes a node produced by the Pratt entry.
 func (nm *nilModel) fromPratt(f *FuncInfo, e ast.Expr, depth int) bool {
-	if depth > 6 || e == nil {
+	if depth > 12 || e == nil {
 		return false
 	}
 	info := f.Pkg.TypesInfo
